@@ -221,11 +221,16 @@ func init() {
 		ID: "C16", Fn: c16, Resume: true,
 		Rule:        "FEN: every string from (a) FENs of legal corpus positions (must round-trip exactly), (b) grammar-aware mutations (truncation at every length, rank over/underflow, digits 0/9, rank count, all 64 ep squares, ep garbage, counter overflow/negative, bad side/castling fields, missing fields, whitespace, replaced characters, separators), (c) random bytes; accepted results must re-parse from their own FEN to the same observables, be a fixpoint and be usable (IsAttacked, move generation, do/undo without panic); UCI: hostile sessions (see c16uci); distinct = distinct input strings / command lines",
 		Assumptions: []string{"'well-formed position' = all getters, the attack predicates and move generation work on it, and its FEN output re-parses to the same observables"},
-		Required:    []string{"legal_fens", "fen_accepted", "fen_rejected", "mut_truncated", "mut_rank-overflow", "mut_ep-square", "mut_digits", "mut_counters", "mut_random"},
+		Required:    []string{"legal_fens", "fen_accepted", "fen_rejected", "mut_truncated", "mut_rank-overflow", "mut_ep-square", "mut_digits", "mut_counters", "mut_random", "uci_sessions", "uci_lines", "uci_position_lines", "uci_probe_searches"},
 		MinEvals:    20000,
 	})
 }
 
 func c16(c *Ctx) {
-	c16fen(c)
+	if !c.Restarted() {
+		c16fen(c)
+		// checkpoint the statistics of the FEN part
+		c.Rep.emit(line{T: "stat", Counters: c.Rep.counters, Evals: c.Rep.evals, Distinct: int64(len(c.Rep.hashes)), Samples: c.Rep.samples}, true)
+	}
+	c16uci(c)
 }
